@@ -1012,7 +1012,11 @@ def program_strategy(profile):
                 body += block(py, l2, lh2, calls, depth + 1)
                 body.append(["set", n, ["int", draw(st.integers(1, 9)) + 10 * nid()]])
                 body.append(["rec", nid(), n])
-                return ["let", [[n, v]], body]
+                inner = ["let", [[n, v]], body]
+                if chance(1, 3):
+                    # the same name also bound by an enclosing let of this Python scope: the declaration un-shadows both
+                    return ["let", [[n, ["int", draw(st.integers(1, 9)) + 10 * nid()]]], [inner, ["rec", nid(), n], ["set", n, ["int", 10 * nid() + 1]], ["rec", nid(), n]]]
+                return inner
             if k == "negdecl":
                 # a declaration after the name was used at this scope's level: must be rejected
                 cands = sorted(n for n in py.level_used if n in NAMES)
